@@ -243,7 +243,7 @@ func main() {
 		evSeenE += h.EvSeen
 		reAddE += h.ReAdded
 	}
-	if (evSeenE == 0 || reAddE == 0) && len(rep.drifts) == 0 {
+	if (evSeenE == 0 || reAddE == 0) && len(rep.drifts) == 0 && c.Violations() == 0 {
 		vlib.Infra("vacuous eviction phase: %d hash-only requests for an evicted hash, %d re-registrations of an evicted hash", evSeenE, reAddE)
 	}
 	fmt.Fprintf(os.Stderr, "[c15] E: TLC %s: %d states, %d edges; %d covering tours + %d eviction scenarios, %d replays (%d left the implementation-level machine), %d requests, %d hash-only requests for an evicted hash, %d re-registrations of an evicted hash, %.1fs\n",
@@ -295,7 +295,7 @@ func main() {
 	if len(hs) > 0 && len(hs[1].Steps) > 0 {
 		var s []string
 		for _, st := range hs[1].Steps[:min(10, len(hs[1].Steps))] {
-			s = append(s, fmt.Sprintf("%s %s => %s/%s cache=%v", st.Wire.Method, st.Req.form(), st.Got.Out.Class, st.Got.Out.Submit, st.Got.State.Order))
+			s = append(s, fmt.Sprintf("%s %s => %s/%s observed-binding=%v", st.Wire.Method, st.Req.form(), st.Got.Out.Class, st.Got.Out.Submit, st.Got.State.Ents))
 		}
 		c.Sample(map[string]any{"mechanism": "B", "cache": hs[1].Rig.Kind, "cap": hs[1].Rig.Cap, "first_requests": s})
 	}
@@ -309,7 +309,7 @@ func main() {
 			}
 		}
 	}
-	if (hits == 0 || misses == 0 || stats["lru:evictions"] == 0) && len(rep.drifts) == 0 {
+	if (hits == 0 || misses == 0 || stats["lru:evictions"] == 0) && len(rep.drifts) == 0 && c.Violations() == 0 {
 		vlib.Infra("vacuous random histories: %d hash-only hits, %d misses, %d evictions", hits, misses, stats["lru:evictions"])
 	}
 	// the VERDICT: every observed history (tours of A, histories of B) against the property level
